@@ -354,12 +354,23 @@ func init() {
 					return fmt.Errorf("%s returned %s together with its error, the %s entry point %s\ndoc=%s", u.name, describe(u.res), kind, describe(sres), docdump(kind, c.Doc))
 				}
 			}
-			for _, name := range []string{"DecodeDocument", "Decode"} {
+			// "after ...": the same universal decoder object has read a document of the other (or of the same)
+			// format before - detection is per document, not per decoder
+			for _, name := range []string{"DecodeDocument", "Decode", "DecodeDocument after CBE", "Decode after CBE", "DecodeDocument after CTE", "Decode after CTE"} {
 				rec := ev.NewRecorder()
 				var e error
 				o := ctx.Guard(func() {
 					d := ce.NewCEDecoder(cfg)
-					if name == "Decode" {
+					if strings.HasSuffix(name, "after CBE") {
+						if pe := d.DecodeDocument([]byte{0x81, 0x00, 0x01}, ce.NewRules(ev.NewRecorder(), cfg)); pe != nil {
+							panic(fmt.Sprintf("harness: priming document rejected: %v", pe))
+						}
+					} else if strings.HasSuffix(name, "after CTE") {
+						if pe := d.Decode(strings.NewReader("c0\n[1]"), ce.NewRules(ev.NewRecorder(), cfg)); pe != nil {
+							panic(fmt.Sprintf("harness: priming document rejected: %v", pe))
+						}
+					}
+					if strings.HasPrefix(name, "Decode ") || name == "Decode" {
 						e = d.Decode(bytes.NewReader(doc()), ce.NewRules(rec, cfg))
 					} else {
 						e = d.DecodeDocument(doc(), ce.NewRules(rec, cfg))
